@@ -209,6 +209,17 @@ def l2(rep, w):
         roots = [{q[0] for q in worg.get((op_place(a) or {}).get('l'), ())} for a in t['args']]
         if roots and ('arg', 1) in roots[0] and any(('arg', 3) in x for x in roots[1:]):
             consume.add(bi)
+    # a run-length table "records" a repeated line by comparing it with the last run and bumping a count: reading the line counts
+    for bi in wf.normal_blocks():
+        for s_ in wf.blocks[bi]['s']:
+            rr = s_.get('r', {})
+            if rr.get('rv') == 'bin' and rr['op'] in ('Eq', 'Ne'):
+                if any(('arg', 3) in {q[0] for q in worg.get((op_place(o) or {}).get('l'), ())} for o in (rr['a'], rr['b'])):
+                    consume.add(bi)
+        t_ = wf.blocks[bi]['t']
+        if t_['t'] == 'call' and any(('arg', 3) in {q[0] for q in worg.get((op_place(a) or {}).get('l'), ())} for a in t_.get('args', [])) and \
+                (callee_name(t_) or '').endswith(('::eq', '::ne')):
+            consume.add(bi)
     code_push = {bi for fld, bi in muts.get(wr, []) if fld == 'code'}
     r.check(bool(consume) and bool(code_push) and c01.all_paths_hit(wf, None, consume) and c01.all_paths_hit(wf, None, code_push),
             'Chunk::write appends the byte and records its line on every path', 'a path through Chunk::write appends a byte without recording its line (or the reverse)', wf.loc())
